@@ -36,3 +36,14 @@ var _ *imapserver.FetchWriter
 //@ func (sess *UserSession) Move(w *imapserver.MoveWriter, numSet imap.NumSet, destName string) (err error)
 //@   props C08:callsite
 //@   callsite MoveWriter.WriteExpunge(mw *imapserver.MoveWriter, n uint32) requires n != 0
+
+// ---------------------------------------------------------------------------
+// C09: no syntactically valid command makes the back end crash — partial
+// ranges with extreme offsets and sizes (both are non-negative: the server's
+// parser reads them with Decoder.Number64).
+
+//@ func (msg *message) bodySection(item *imap.FetchItemBodySection) (result []byte)
+//@   props C09:bounds,overflow,div0
+//@   overflow
+//@   requires msg != nil && item != nil
+//@   requires item.Partial != nil ==> item.Partial.Offset >= 0 && item.Partial.Size >= 0
